@@ -7,6 +7,26 @@ from registry import PROPS, NOT_APPLICABLE
 VERIF = os.path.dirname(os.path.dirname(os.path.abspath(__file__)))
 ids = [json.loads(l)["id"] for l in open(os.path.join(VERIF, "properties.jsonl"))]
 
+CLAIM = {
+ "C01": "Round trip dec(enc(m)) = m through mixed API paths (multi-block vs single-block, b2b, one-shot, buffered, padded incl. NoPadding/empty, byte stream in different cuts, seek-based), symbolic lengths for one-shot / CTS.",
+ "C02": "CBC / PCBC / IGE output and exported chaining value equal the textbook recurrence written in the harness, both directions, decryptors on arbitrary ciphertext, every feeding kind incl. a custom closure over the backend.",
+ "C03": "CFB / CFB-8 / OFB equal their recurrences (cipher type implements only the encryption traits); one-shot with symbolic length; buffered CFB from every reachable state (inductive step).",
+ "C04": "CTR keystream block i = E(layout_F(IV, i)) for the six flavours at a SYMBOLIC block index over the whole counter range; get/set_block_pos, remaining_blocks, iv_state, single-block core API.",
+ "C05": "Six CTS variants equal the NIST SP 800-38A addendum definition for every length in the stated ranges (all residues, L=b, L=kb), decrypt inverts, arbitrary-ciphertext decrypt equals the NIST decryption procedure.",
+ "C06": "BelT-CTR: s0 = LE128(E(IV)), block i = E(LE(s0+i+1)) with symbolic E(IV) and symbolic position (wrap of s inside the query); byte-level alias.",
+ "C07": "Inductive step: from an arbitrary chaining state one multi-block call of symbolic size k on a width-w cipher equals k single-block calls on a width-1 cipher, same exported state; hence independence of any batching.",
+ "C08": "Inductive step for byte streams: arbitrary core state -> piece 1 -> piece 2 of symbolic length equals the keystream spec; buffered CFB from every reachable state; one-shot prefix preservation.",
+ "C09": "Export at a symbolic cut, import into a fresh instance, continue: equals the uninterrupted run; exported value equals the public chaining value computed from (IV, plaintext, ciphertext).",
+ "C10": "Seek / position coherence: core contract for every counter value, public-API op sequences at concrete byte geometry with everything else symbolic, every byte offset in a range (case split), fully symbolic SeekNum kernels.",
+ "C11": "Exhaustion: remaining_blocks exact for every position; request accepted iff it fits (symbolic length near the limit), rejected requests leave data and position untouched; injectivity of position -> counter block; no keystream after far seeks.",
+ "C12": "In-place == b2b == inout == per-block forms (dirty output buffers), same chaining state; CTS with symbolic length; padded forms.",
+ "C13": "Rejections (Err, buffers bit-identical, state unchanged) for every listed contract violation with symbolic lengths; Kani's panic / overflow / bounds / pointer checks on every harness plus total drivers.",
+ "C14": "Pairs of front-ends produce identical output and state for symbolic key / IV / message.",
+ "C15": "Error propagation supports exactly as prescribed (provable parts asserted, existential parts as covers) plus decryptor == recurrence; causality with a symbolic prefix length; keystream independence of data.",
+ "C16": "clone / clone_from / independently created instances: outputs and states equal fresh replays under a symbolic interleaving; no influence of an earlier instance with another key and the same IV.",
+ "C17": "Debug text ({:?} and {:#?}) identical for two objects with independent symbolic state; storage bytes after drop_in_place all zero for padding-free instantiations over a zero-sized cipher.",
+}
+
 checks = []
 for pid in ids:
     if pid not in PROPS:
@@ -21,10 +41,10 @@ for pid in ids:
         engine="kani-uf",
         level_claimed=dict(
             category="model_checking",
-            text=m.get("level_text", "Bounded model checking of the compiled real code (Kani -> CBMC -> CaDiCaL): each harness is decided "
-                 "for every block cipher (uninterpreted permutation), key, IV, data, position and length within the stated "
-                 "instantiations and sizes; unwinding assertions on; nothing is sampled."),
-            design_ref=m.get("design_ref", "DESIGN.md section 3 " + pid),
+            text=m.get("level_text", CLAIM.get(pid, "") + " Decided by bounded model checking of the compiled real code (Kani -> CBMC -> CaDiCaL): each harness "
+                 "holds for every block cipher of the instantiated block size (uninterpreted permutation), key, IV, data, position and length within "
+                 "the stated instantiations and sizes; unwinding assertions on; nothing is sampled; outside the bounds nothing is claimed."),
+            design_ref=m.get("design_ref", "DESIGN.md section 3 (" + pid + ") and section 9"),
         ),
         level_note=m.get("level_note", "Trusted: Kani MIR->goto translation, CBMC/CaDiCaL, the ~400-line harness oracle and reference models. "
                         "Bounds (block sizes, widths, lengths) are listed in the evidence file; outside them nothing is claimed."),
